@@ -58,7 +58,13 @@ OK_FULL = {
 
 
 def finding_of_axis(n, sp):
-    """None if the spec lies in the conforming region, else the id of the known finding that names its class"""
+    """None if the spec lies in the conforming region, else the id of the known finding that names its class.
+    Since the repair of the slice semantics (/repo fix: commit 31c6230, see known_findings.json) every class conforms; the
+    historic classification is kept in legacy_class_of_axis for the generator-health histogram."""
+    return None
+
+
+def legacy_class_of_axis(n, sp):
     if isinstance(sp, int) or sp == "...":
         return None
     c = axis_class(n, sp)
@@ -274,9 +280,6 @@ class C05(Prop):
             f = finding_of_axis(case["n"], sp)
             if f:
                 return f
-            start, stop, step = py_spec(sp).indices(case["n"])
-            if abs(stop - start) > 2 ** 24:
-                return "C05-length-float-rounding"
             return None
         shape = case["arrays"][0]["shape"]
         sl = self._slices(case)
@@ -324,6 +327,12 @@ class C05(Prop):
             out.append("neg_step")
         if any(isinstance(s, list) and any(isinstance(x, int) and x < 0 for x in s[:2]) for s in sl):
             out.append("neg_bound")
+        shape = case["arrays"][0]["shape"]
+        for n, sp in zip(axes_of(shape, sl), sl):
+            if n is not None:
+                lc = legacy_class_of_axis(n, sp)
+                if lc:
+                    out.append("formerly:" + lc)
         return out
 
     # ---- oracle -----------------------------------------------------------
